@@ -50,7 +50,7 @@ def cubic_expected(cub, cw, ss, rtt, now):
 
 class C17(Prop):
     id = "C17"
-    props_file = ["Props/C17.v", "Props/C17_Examples.v", "Props/C17_Bridge.v"]
+    props_file = ["Props/C17.v", "Props/C17_Examples.v", "Props/C17_Bridge.v", "Props/C17_BridgeResend.v"]
     coq_imports = ["From ONL Require Import Base.Cmp Tcp.Sender Tcp.Cubic."]
     n_quick = 700
     n_thorough = 12000
@@ -82,8 +82,7 @@ class C17(Prop):
     assumptions = ["mss > 0, flow.size a multiple of the MSS (or None), no arrival_dist/size_dist, flow.start_time None, finish_time infinite",
                    "RTT samples are non-negative (ack.time <= now); initial rtt_estimate > 0"]
     partial = ["the translated-definition tie covers the CongestionControl / TCPReno / TCPCubic method bodies and TCPPacketGenerator.put / "
-               "timeout_callback (Props/C17_Bridge.v); resend_packet, run() and the loop that stops acknowledged timers (one whitelisted "
-               "statement) are tied by the correspondence and the monitor only",
+               "timeout_callback (Props/C17_Bridge.v); resend_packet and the loop that stops acknowledged timers are tied by Props/C17_BridgeResend.v (the loop as one generated iteration run with fuel); run() is a generator and is tied by the correspondence and the monitor only",
                "binary64 rounding: theorems are over Q; CUBIC's cnt is compared within 1e-5 (ill-conditioned max_cnt), W_tcp within 1e-9"]
 
     # ---- generation -------------------------------------------------------------------------
